@@ -1,18 +1,3 @@
-(* C19 — lemmas. *)
-From Coq Require Import ZArith List Bool Lia Sorted.
-From ADV Require Import C19.Model C19.Spec.
-Import ListNotations.
-Open Scope Z_scope.
-
-Lemma rotLL_elements t : elements (rotLL t) = elements t.
-Proof. destruct t as [|io [|i1 a1l v1 b1 a1r] vo bo a2]; simpl; auto.
-  rewrite <- app_assoc. reflexivity. Qed.
-Lemma rotRR_elements t : elements (rotRR t) = elements t.
-Proof. destruct t as [|io a2 vo bo [|i1 a1l v1 b1 a1r]]; simpl; auto.
-  rewrite <- app_assoc. reflexivity. Qed.
-Lemma rotLR_elements t : elements (rotLR t) = elements t.
-Proof. destruct t as [|io [|i1 a1l v1 b1 [|i2 a2l v2 b2 a2r]] vo bo r]; simpl; auto.
-  repeat (rewrite <- app_assoc; simpl). reflexivity. Qed.
-Lemma rotRL_elements t : elements (rotRL t) = elements t.
-Proof. destruct t as [|io l vo bo [|i1 [|i2 a2l v2 b2 a2r] v1 b1 a1r]]; simpl; auto.
-  repeat (rewrite <- app_assoc; simpl). reflexivity. Qed.
+(* C19 — lemmas: this file only gathers the proof files. *)
+From ADV Require Export C19.ProofsRot C19.ProofsList C19.ProofsLookup C19.ProofsIns
+  C19.ProofsDel C19.ProofsRun C19.ProofsIter C19.ProofsIds C19.ProofsPar.
